@@ -1,96 +1,106 @@
-(* C14 phase 2: agreement of the two reader models on modules without blackbox instances (part D7) *)
+(* C14 phase 2: agreement of the two reader models on the documented subset (part D7) *)
 From stdpp Require Import strings gmap sets pretty.
 From CG Require Import Model.FastVerilog Proofs.FastVerilogProofs Gen.Gen_fastv Base.Sem Base.Compose.
-From CG Require Import Proofs.FvA0 Proofs.FvA1 Proofs.FvA2 Proofs.FvA3 Proofs.FvA4 Proofs.FvA5 Proofs.FvA6 Proofs.FvA7 Proofs.FvA8 Proofs.FvA9 Proofs.FvA10 Proofs.FvB1 Proofs.FvB2 Proofs.FvB3 Proofs.FvB4 Proofs.FvB5 Proofs.FvC1 Proofs.FvC2 Proofs.FvD1 Proofs.FvD2 Proofs.FvD3 Proofs.FvD4 Proofs.FvD5 Proofs.FvD6.
+From CG Require Import Proofs.FvA0 Proofs.FvA1 Proofs.FvA2 Proofs.FvP1 Proofs.FvE1 Proofs.FvE2 Proofs.FvE3 Proofs.FvE4 Proofs.FvA3 Proofs.FvE5 Proofs.FvE6 Proofs.FvE7 Proofs.FvA4 Proofs.FvA5 Proofs.FvA6 Proofs.FvA7 Proofs.FvA8 Proofs.FvA9 Proofs.FvA10 Proofs.FvB1 Proofs.FvB2 Proofs.FvB3 Proofs.FvB4 Proofs.FvB5 Proofs.FvC1 Proofs.FvC2 Proofs.FvD1 Proofs.FvD2 Proofs.FvD3 Proofs.FvD4 Proofs.FvD5 Proofs.FvD6.
 Open Scope string_scope.
 
 Section shape.
   Variables (a : ast) (bbs : list bbdef).
   Hypothesis Hsub : in_subset a bbs = true.
-  Hypothesis Hni : no_inst a = true.
   Variables (t0 t1 : string).
   Hypothesis Hfr : t0 ∉ idents a ∧ t1 ∉ idents a.
   Hypothesis Hd : distinct6 t0 t1 "?x".
+  Hypothesis Hdot : dotted t0 = false ∧ dotted t1 = false.
 
-  Lemma fin_tie_shape c : (∀ m, c !! m = finT t0 t1 a m) → tie_shape c t0 t1 "?x".
+  Lemma fin_tie_shape c : (∀ m, c !! m = finT t0 t1 bbs a m) → tie_shape c t0 t1 "?x".
   Proof.
-    intros Hc. split; [done|]. destruct (six_neq a t0 t1 Hfr Hd) as (N01 & N0x & N00 & N0b & N0c & N1x & N10 & N11 & N1c).
-    assert (HcF : ∀ m, c !! m = FS a t0 t1 m). { intros m. rewrite Hc. by apply (finT_sym a bbs Hsub Hni t0 t1 Hfr N01). }
+    intros Hc. split; [done|]. destruct (six_neq a t0 t1 Hfr Hd Hdot) as (N01 & N0x & N00 & N0b & N0c & N1x & N10 & N11 & N1c).
+    assert (HcF : ∀ m, c !! m = FS bbs a t0 t1 m). { intros m. rewrite Hc. by apply (finT_sym a bbs Hsub t0 t1 Hfr N01 Hdot). }
     intros n Hn. unfold cname, ty.
-    assert (Hcase : (n = t0 ∧ OConst "1'b0" ∈ all_ops a) ∨ (n = t1 ∧ OConst "1'b1" ∈ all_ops a) ∨ n ∈ idents a).
+    assert (Hcase : (n = t0 ∧ OConst "1'b0" ∈ all_ops bbs a) ∨ (n = t1 ∧ OConst "1'b1" ∈ all_ops bbs a) ∨ keyish a n).
     { apply support_elim in Hn as [Hn|(m & i & Hm & Hi)].
       - apply elem_of_dom in Hn as [i Hi]. rewrite HcF in Hi. unfold FS in Hi.
         destruct (decide (n = t0)) as [->|]; [destruct (decide _); [auto|done]|].
         destruct (decide (n = t1)) as [->|]; [destruct (decide _); [auto|done]|].
-        right. right. destruct (decide (n ∈ idents a)) as [|Hni']; [done|]. destruct (nonident_none a n Hni') as [HG Hin]. rewrite HG in Hi.
+        right. right. assert (Hdec : keyish a n ∨ ¬ keyish a n). { unfold keyish. destruct (decide (n ∈ idents a)); [tauto|]. destruct (dotted n); [tauto|]. right. intros [?|?]; done. }
+        destruct Hdec as [|Hni']; [done|]. destruct (nonident_none a bbs Hsub n Hni') as [HG Hin]. rewrite HG in Hi.
         by rewrite decide_False in Hi.
       - rewrite HcF in Hm. unfold FS in Hm.
         destruct (decide (m = t0)); [destruct (decide _); [injection Hm as <-; set_solver|done]|].
         destruct (decide (m = t1)); [destruct (decide _); [injection Hm as <-; set_solver|done]|].
-        destruct (symG a !! m) as [v|] eqn:E.
+        destruct (symG bbs a !! m) as [v|] eqn:E.
         + injection Hm as <-. cbn [n_fi mk_node] in Hi. apply elem_of_list_to_set in Hi. apply elem_of_list_fmap in Hi as (z & -> & Hz).
-          destruct (symG_ops a bbs Hsub Hni m v z E Hz) as [Hall Hgood]. destruct z as [s|s]; cbn [goodop nm] in *; [auto|].
-          destruct Hgood as [->| ->]; [left|right; left]; done.
+          destruct (symG_ops a bbs Hsub m v z E Hz) as [Hgood Hall]. destruct z as [s|s]; cbn [goodop nm] in *; [right; right; exact Hgood|].
+          pose proof (Hall s eq_refl) as Hin'. destruct Hgood as [->| ->]; [left|right; left]; done.
         + destruct (decide (m ∈ decl_inputs a)); [injection Hm as <-; set_solver|done]. }
     rewrite HcF. destruct Hcase as [[-> Hu]|[[-> Hu]|Hid]].
     - unfold FS. rewrite decide_True, decide_True by done. simpl. symmetry. apply σ_t0.
-    - unfold FS. rewrite (decide_False (P := t1 = t0)) by done. rewrite decide_True, decide_True by done. simpl. symmetry. by apply (σ_t1 a).
-    - rewrite (σ_ident a bbs Hsub t0 t1 Hfr n Hid). unfold FS.
-      destruct Hfr as [Hf0 Hf1]. rewrite decide_False by (intros ->; done). rewrite decide_False by (intros ->; done).
-      destruct (symG a !! n) as [v|] eqn:E.
-      + simpl. pose proof (symG_type a bbs Hsub Hni n v E) as Ht. destruct v.1; try done; vm_compute in Ht; set_solver.
+    - unfold FS. rewrite (decide_False (P := t1 = t0)) by done. rewrite decide_True, decide_True by done. simpl. symmetry. by apply (σ_t1 a t0 t1 Hfr Hd Hdot).
+    - rewrite (σ_ident a bbs Hsub t0 t1 Hfr Hdot n Hid). unfold FS.
+      destruct (tie_not_keyish a t0 t1 Hfr Hdot) as [Hf0 Hf1]. rewrite decide_False by (intros ->; done). rewrite decide_False by (intros ->; done).
+      destruct (symG bbs a !! n) as [v|] eqn:E.
+      + simpl. destruct (symG_type a bbs Hsub n v E) as [Ht|[Ht|Ht]]; [destruct v.1; try done; vm_compute in Ht; set_solver|by rewrite Ht|by rewrite Ht].
       + destruct (decide (n ∈ decl_inputs a)); done.
   Qed.
 
   (* inputs and outputs of the common function *)
-  Lemma fin_inputs c : (∀ m, c !! m = finT t0 t1 a m) → inputs c = list_to_set (decl_inputs a).
+  Lemma fin_inputs c : (∀ m, c !! m = finT t0 t1 bbs a m) → inputs c = list_to_set (decl_inputs a).
   Proof.
-    intros Hc. destruct (six_neq a t0 t1 Hfr Hd) as (N01 & _). apply set_eq. intros m. rewrite elem_of_inputs, elem_of_list_to_set. split.
-    - intros (i & Hi & Hty). rewrite Hc, (finT_sym a bbs Hsub Hni t0 t1 Hfr N01) in Hi.
+    intros Hc. destruct (six_neq a t0 t1 Hfr Hd Hdot) as (N01 & _). apply set_eq. intros m. rewrite elem_of_inputs, elem_of_list_to_set. split.
+    - intros (i & Hi & Hty). rewrite Hc, (finT_sym a bbs Hsub t0 t1 Hfr N01 Hdot) in Hi.
       destruct (decide (m = t0)); [destruct (decide _); by simplify_eq/=|]. destruct (decide (m = t1)); [destruct (decide _); by simplify_eq/=|].
-      destruct (symG a !! m) as [v|] eqn:E.
-      + simplify_eq/=. pose proof (symG_type a bbs Hsub Hni m v E) as Ht. rewrite Hty in Ht. vm_compute in Ht. set_solver.
+      destruct (symG bbs a !! m) as [v|] eqn:E.
+      + simplify_eq/=. destruct (symG_type a bbs Hsub m v E) as [Ht|[Ht|Ht]]; rewrite Hty in Ht; [vm_compute in Ht; set_solver|done|done].
       + destruct (decide (m ∈ decl_inputs a)); [done|by simplify_eq/=].
-    - intros Hm. rewrite Hc, (finT_sym a bbs Hsub Hni t0 t1 Hfr N01).
+    - intros Hm. rewrite Hc, (finT_sym a bbs Hsub t0 t1 Hfr N01 Hdot).
       assert (Hmi : m ∈ idents a).
       { unfold decl_inputs in Hm. apply elem_of_list_bind in Hm as (it' & Hi & Hit'). eapply idents_item; [exact Hit'|]. destruct it'; try (by apply elem_of_nil in Hi). done. }
       destruct Hfr as [Hf0 Hf1]. rewrite decide_False by (intros ->; done). rewrite decide_False by (intros ->; done).
-      destruct (symG a !! m) as [v|] eqn:E.
-      + exfalso. apply (symG_item a) in E as (it & Hit & Hv).
-        pose proof (view_sym a t0 t1 (conj Hf0 Hf1) N01 it (itemgood_of a bbs Hsub Hni it Hit)) as Hvs. rewrite Hv in Hvs. simpl in Hvs.
-        by destruct (driver_ident a bbs Hsub Hni t0 t1 it m _ Hit Hvs).
+      destruct (symG bbs a !! m) as [v|] eqn:E.
+      + exfalso. assert (HG : sG (sF t0 t1 bbs a) !! m = Some (symv t0 t1 v)) by (rewrite (sG_symG a bbs Hsub t0 t1 (conj Hf0 Hf1) N01 Hdot); by rewrite lookup_fmap, E).
+        by destruct (G_key a bbs Hsub t0 t1 (conj Hf0 Hf1) m _ HG) as [? _].
       + rewrite decide_True by done. eauto.
   Qed.
 End shape.
 
-(* THE PROPERTY for modules without blackbox instances: same inputs, same registry and name, graphs identical apart from the names
-   of the constant nodes, and every consistent valuation of the fast reader's circuit is matched by one of the full reader's circuit
-   that agrees on every net of the netlist (hence the same function at every output) *)
-Theorem property_gates a bbs : in_subset a bbs = true → no_inst a = true →
+(* THE PROPERTY for every AST of the documented subset: same name, registry, inputs; graphs identical apart from the names
+   of the constant nodes; every consistent valuation of the fast reader's circuit is matched by one of the full reader's circuit
+   that agrees on every net of the netlist (hence the same function at every output and blackbox input pin) *)
+Theorem property_all a bbs : in_subset a bbs = true →
   ∃ Cf Cl, fast_sem a bbs = Ok Cf ∧ full_sem a bbs = Ok Cl ∧ untie Cf = untie Cl ∧
     c_name Cf = c_name Cl ∧ c_bbs Cf = c_bbs Cl ∧ inputs (c_g Cf) = inputs (c_g Cl) ∧
-    ∀ vf, consistent (c_g Cf) vf → ∃ vl, consistent (c_g Cl) vl ∧ ∀ n, n ∈ idents a → vl n = vf n.
+    ∀ vf, consistent (c_g Cf) vf → ∃ vl, consistent (c_g Cl) vl ∧ ∀ n, n ∈ idents a ∨ dotted n = true → vl n = vf n.
 Proof.
-  intros Hsub Hni.
-  destruct (fast_sem_char a bbs Hsub Hni) as (g3 & g4 & Hg3 & Hg4 & Hfast).
-  destruct (full_sem_char a bbs Hsub Hni) as (C1 & g1 & Hrel & _ & Hg1 & Hfull).
+  intros Hsub. pose proof (in_subset_facts a bbs Hsub) as HF.
+  destruct (fast_sem_char a bbs Hsub) as (g3 & g4 & Bf & Hg3 & Hg4 & Hfast).
+  destruct (full_sem_char a bbs Hsub) as (C1 & g1 & Hrel & Hg1 & Hfull).
   destruct (full_ties_facts a) as (_ & (Hl0 & Hl1 & Hlx) & N01 & N0x & N1x).
-  destruct (fast_fresh a) as [Hk0 Hk1].
-  pose proof (fast_fin a bbs Hsub Hni (kt0 a) (kt1 a) (conj Hk0 Hk1) (fast_ne a) g3 g4 Hg3 Hg4) as Hf.
-  assert (Hl : ∀ m, drop3 g1 (ft0 a) (ft1 a) (ftx a) !! m = finT (ft0 a) (ft1 a) a m).
-  { apply (full_fin a bbs Hsub Hni (ft0 a) (ft1 a) (conj Hl0 Hl1) N01 (ftx a) (c_g C1) g1); try done; by apply not_eq_sym. }
-  destruct (agree_gates a bbs Hsub Hni) as (Cf & Cl & HCf & HCl & Hun).
+  destruct (full_ties_nodot a) as (Hd0 & Hd1 & Hdx).
+  destruct (fast_fresh a) as [Hk0 Hk1]. pose proof (fast_nodot a) as Hkd.
+  pose proof (fast_fin a bbs Hsub (kt0 a) (kt1 a) (conj Hk0 Hk1) (fast_ne a) Hkd g3 g4 Hg3 Hg4) as Hf.
+  assert (Hl : ∀ m, drop3 g1 (ft0 a) (ft1 a) (ftx a) !! m = finT (ft0 a) (ft1 a) bbs a m).
+  { apply (full_fin a bbs Hsub (ft0 a) (ft1 a) (conj Hl0 Hl1) N01 (conj Hd0 Hd1) (ftx a) (c_g C1) g1); try done; by apply not_eq_sym. }
+  destruct (agree_all a bbs Hsub) as (Cf & Cl & HCf & HCl & Hun).
   rewrite Hfast in HCf. injection HCf as <-. rewrite Hfull in HCl. injection HCl as <-.
+  destruct (registry_agree a bbs _ _ (sf_bbs a bbs HF) Hfast Hfull) as [_ Hbbs]. cbn [c_bbs] in Hbbs.
   eexists _, _. split; [exact Hfast|]. split; [exact Hfull|]. split; [exact Hun|]. cbn [c_name c_g c_bbs]. split; [done|]. split; [done|]. split.
-  - rewrite (fin_inputs a bbs Hsub Hni _ _ (conj Hk0 Hk1) (fast_distinct6 a) _ Hf).
-    by rewrite (fin_inputs a bbs Hsub Hni _ _ (conj Hl0 Hl1) (full_distinct6 a) _ Hl).
+  - rewrite (fin_inputs a bbs Hsub _ _ (conj Hk0 Hk1) (fast_distinct6 a) Hkd _ Hf).
+    by rewrite (fin_inputs a bbs Hsub _ _ (conj Hl0 Hl1) (full_distinct6 a) (conj Hd0 Hd1) _ Hl).
   - intros vf Hvf.
-    pose proof (fin_tie_shape a bbs Hsub Hni _ _ (conj Hk0 Hk1) (fast_distinct6 a) _ Hf) as Hsf.
-    pose proof (fin_tie_shape a bbs Hsub Hni _ _ (conj Hl0 Hl1) (full_distinct6 a) _ Hl) as Hsl.
+    pose proof (fin_tie_shape a bbs Hsub _ _ (conj Hk0 Hk1) (fast_distinct6 a) Hkd _ Hf) as Hsf.
+    pose proof (fin_tie_shape a bbs Hsub _ _ (conj Hl0 Hl1) (full_distinct6 a) (conj Hd0 Hd1) _ Hl) as Hsl.
     assert (Hug : untie_g (drop_unused (drop_unused g4 (kt0 a)) (kt1 a)) = untie_g (drop3 g1 (ft0 a) (ft1 a) (ftx a))).
     { unfold untie, with_g in Hun. by injection Hun. }
     destruct (untie_same_function _ _ _ _ _ _ _ _ Hsf Hsl Hug vf Hvf) as (vl & Hvl & Hag). exists vl. split; [done|].
     intros n Hn. apply Hag.
-    + by apply (ident_not_six a bbs Hsub _ _ (conj Hk0 Hk1)).
-    + by apply (ident_not_six a bbs Hsub _ _ (conj Hl0 Hl1)).
+    + by apply (ident_not_six a bbs Hsub _ _ (conj Hk0 Hk1) Hkd).
+    + by apply (ident_not_six a bbs Hsub _ _ (conj Hl0 Hl1) (conj Hd0 Hd1)).
+Qed.
+Corollary property_gates a bbs : in_subset a bbs = true → no_inst a = true →
+  ∃ Cf Cl, fast_sem a bbs = Ok Cf ∧ full_sem a bbs = Ok Cl ∧ untie Cf = untie Cl ∧
+    c_name Cf = c_name Cl ∧ c_bbs Cf = c_bbs Cl ∧ inputs (c_g Cf) = inputs (c_g Cl) ∧
+    ∀ vf, consistent (c_g Cf) vf → ∃ vl, consistent (c_g Cl) vl ∧ ∀ n, n ∈ idents a → vl n = vf n.
+Proof.
+  intros H _. destruct (property_all a bbs H) as (Cf & Cl & H1 & H2 & H3 & H4 & H5 & H6 & H7). exists Cf, Cl. repeat (split; [done|]).
+  intros vf Hvf. destruct (H7 vf Hvf) as (vl & ? & Hag). exists vl. split; [done|]. intros n Hn. apply Hag. by left.
 Qed.
